@@ -26,6 +26,8 @@ import (
 //	E: like B, language zh
 //	F: like A, but RewardConf refers to an item that does not exist (E2002), language en
 //	G: like B, with the same defect (E2002), language zh
+//	H: like A plus a column K8sNodeName, acronym table {K8s: k8s}
+//	I: like A plus the same column, acronym table {K8s: kube} (the same pattern, another replacement)
 func c16Call(name string, w *workspace) string {
 	kind := [][]string{{"Name", "Alias"}, {"KIND_X", "Alpha"}, {"KIND_Y", "Beta"}}
 	ids := []string{"1", "2"}
@@ -33,6 +35,13 @@ func c16Call(name string, w *workspace) string {
 	lang := "en"
 	metasheet := ""
 	badRef := false
+	var acronyms map[string]string
+	switch name {
+	case "H":
+		acronyms = map[string]string{"K8s": "k8s"}
+	case "I":
+		acronyms = map[string]string{"K8s": "kube"}
+	}
 	switch name {
 	case "B", "E":
 		kind = [][]string{{"Name", "Alias"}, {"KIND_P", "Beta"}, {"KIND_Q", "Alpha"}}
@@ -57,6 +66,13 @@ func c16Call(name string, w *workspace) string {
 	if badRef {
 		reward = append(reward, []string{"3", "77"})
 	}
+	if acronyms != nil {
+		item[0] = append(item[0], "K8sNodeName")
+		item[1] = append(item[1], "string")
+		item[2] = append(item[2], "node")
+		item[3] = append(item[3], "n1")
+		item[4] = append(item[4], "n2")
+	}
 	msName := "@TABLEAU"
 	if metasheet != "" {
 		msName = metasheet
@@ -70,7 +86,11 @@ func c16Call(name string, w *workspace) string {
 		Input:  &options.ProtoInputOption{ProtoPaths: []string{w.Proto}, Formats: []format.Format{format.CSV}, MetasheetName: metasheet, Header: &options.HeaderOption{NameRow: 1, TypeRow: 2, NoteRow: 3, DataRow: 4, Sep: ",", Subsep: ":"}},
 		Output: &options.ProtoOutputOption{},
 	}
-	if err := tableau.GenProto("protoconf", w.In, w.Proto, options.Proto(po), options.Log(quietLog), options.Lang(lang)); err != nil {
+	protoSetters := []options.Option{options.Proto(po), options.Log(quietLog), options.Lang(lang)}
+	if acronyms != nil {
+		protoSetters = append(protoSetters, options.Acronyms(acronyms))
+	}
+	if err := tableau.GenProto("protoconf", w.In, w.Proto, protoSetters...); err != nil {
 		return "protoerr " + errCode(err)
 	}
 	co := &options.ConfOption{
@@ -110,7 +130,7 @@ func init() {
 	// e2e.C16.history: every history of ≤ 3 calls from the pool; the LAST call's outcome (files written, error)
 	// in a process that ran the whole history vs. in a fresh process.
 	regStream("e2e.C16.history", func(r *rand.Rand, n int, emit func(string, ...string)) {
-		pool := []string{"A", "B", "C", "D", "E", "F", "G"}
+		pool := []string{"A", "B", "C", "D", "E", "F", "G", "H", "I"}
 		count := 0
 		for _, a := range pool {
 			for _, b := range pool {
